@@ -13,7 +13,7 @@ class FaultPlan:
       dst    name of the receiving radio (rule applies to that receiver only)
       ack    True: only auto-ACK packets, False: only non-ACK packets
       nth    index among the transmissions that match (src, ack) - counted per (src, ack) pair
-      ptype  network header type byte of the payload (payload[6]); pto: header to_node field
+      ptype  network header type byte of the payload (payload[6]); pres: reserved byte (payload[7]); pto: header to_node field
       t0,t1  window on the start time of the transmission (ns)
       what   "drop" (default) | "flip" (with "bits": [bit indexes into the payload])
 
@@ -39,6 +39,8 @@ class FaultPlan:
             if "nth" in r and r["nth"] != rec["nth"][1 if rec["ack"] else 0]:
                 continue
             if "ptype" in r and (len(rec["data"]) < 8 or rec["data"][6] != r["ptype"]):
+                continue
+            if "pres" in r and (len(rec["data"]) < 8 or rec["data"][7] != r["pres"]):
                 continue
             if "pto" in r and (len(rec["data"]) < 8 or (rec["data"][2] | (rec["data"][3] << 8)) != r["pto"]):
                 continue
